@@ -519,3 +519,15 @@ _quick("C06", "C06_sweepjump", "(expiry twin of C05_sweepjump) " + _SWEEPJUMP, [
 _quick("C09", "C09_fullsync", "leader side of a full transfer from the handshake on: 1..3 persisted records (a rotation after the first or not), the leader left running (records in the ring) or restarted through the real Aof.LoadAndInit (ring EMPTY); real ReplicationServer.handleInitSync on an empty-position SYNC, then the real sendFiles: the records sent from the files plus those the ring holds from the announced position on are the whole persisted log, each once, in log order (symbolic executor only)", ["-witness", "0"], reach=["end", "restarted"], native=False)
 _quick("C10", "C10_deferlong", "1..2 replicated holds of E = 150 / 300 / 400 s on a node in each non-leader state, clock advanced second by second through the real sweeps to 10 / 200 / 299 s past the DEADLINE: still held, no EXPRIED; the leader's release record is then applied", ["-witness", "1"], reach=["end"])
 _quick("C11", "C11_sharedrepeat", "a shared key (capacity 6) with a plain holder P and an ack-required lock A pending, in either order in the holder list; one further request from the hold's own or another connection: for A's LockId a LOCK (plain / re-entrant / update; symbolic Count, Expried, Rcount, with or without the require-ack flag) or an UNLOCK (all levels / symbolic Rcount and priority bit) - answered LOCK_ACK_WAITING, A's own request still unanswered, A's depth unchanged; for P's LockId - not answered LOCK_ACK_WAITING; then the leader's write and the follower's acknowledgement: A's request is answered SUCCED exactly once", ["-witness", "5"], reach=["end", "pending-lockid", "other-lockid"])
+
+# --- round 12 ---
+CHECKS["C14"]["harnesses"].append(dict(pkg="protocol", name="C14_rt_fields", bound="the other direction of the round trip for SubscribeCommand, SubscribeResultCommand, StateResultCommand, LockCommand, LockResultCommand: every field a solver variable (padding zero), Encode then Decode into a fresh value: every field comes back (a decoder that misplaces one byte of an integer is invisible to decode-encode-decode)", flags=["-witness", "5"], reach=["end"]))
+_quick("C15", "C15_setupdate", "a holder SETs a frame (payload 1..3 or 8 symbolic bytes, value-type flag symbolic, with or without a key property of 2 symbolic bytes); a second SET of the same length, all of it symbolic again, arrives as an update of the held lock or as a value-only request (Expried 0) - the two paths on which the server may skip a SET it takes for a repetition: the stored frame is byte for byte the second SET's (type flag, property block, payload), the reply carries the first", ["-witness", "5"], reach=["end", "update", "value-only"])
+_SHIFTPROP = "a stored value of 1..3 symbolic bytes with or without a property block (key property of 1..3 symbolic bytes), then SHIFT by ANY 32-bit length (one solver variable): no crash (every run-time check is an obligation; all frames are well-formed, so no recorded hostile-frame site applies) and the stored value is the payload without its first min(n, len) bytes"
+_quick("C15", "C15_shiftprop", _SHIFTPROP, ["-witness", "5"], reach=["end", "with-property", "emptied"])
+_quick("C13", "C15_shiftprop", "(also under C15) " + _SHIFTPROP, ["-witness", "5"], reach=["end", "with-property", "emptied"])
+_EXPWAKE = "a key of capacity 1 or 2: holder A (E = 3 s, with or without the lock-the-reversed-key-when-expired flag 0x0080, symbolic), on the shared key a second holder B (E = 30 s) before or after A, a queued request W (T = 20 s); 5 s through the real sweeps: A drew exactly one EXPRIED, W is granted exactly once in that sweep, B keeps its hold"
+_quick("C06", "C06_expirewake", _EXPWAKE, ["-witness", "5"], reach=["end"])
+_quick("C04", "C06_expirewake", "(also under C06) " + _EXPWAKE, ["-witness", "5"], reach=["end"])
+_quick("C17", "C17_cancelafter", "a holder and 2..3 queued requests of which one that is not the head times out (T = 2 s; its dead entry stays queued behind the live head); an UNLOCK with the cancel-wait flag then names the timed-out LockId or a live one: after every event WaitCount equals the number of queued requests not yet answered; the holder unlocks, the live ones are granted and released: WaitCount and LockedCount are back to zero, no request answered twice", ["-witness", "5"], reach=["end", "cancel-dead"])
+_quick("C19", "C19_flowobject", "ONE client.MaxConcurrentFlow object shared by several callers (it caches one Lock built by whichever of Acquire / Release is called first): n = 1..2 and priority 0..3 symbolic, first call Acquire or a defensive Release, then every program of 4 calls from {Acquire on the shared object, Acquire on a fresh object, Release on the shared object}: never more than n inside", ["-witness", "10"], reach=["end", "release-first"])
